@@ -135,12 +135,12 @@ def make_configs(rng, tier, broken):
     return cfgs
 
 
-def pipeline_matrix(ctx, data_seed, optset, cfgs, n_chroms=3, workers=6, label="matrix"):
+def pipeline_matrix(ctx, data_seed, optset, cfgs, n_chroms=3, workers=6, label="matrix", chrom_names=None):
     """runs all configurations on one synthetic dataset; reports every difference to the first configuration"""
     import random
     base = tempfile.mkdtemp(prefix="isoverif_c06_")
     try:
-        ds = c06data.build(random.Random(data_seed), n_chroms=n_chroms)
+        ds = c06data.build(random.Random(data_seed), n_chroms=n_chroms, chrom_names=chrom_names)
         paths = ds.write(os.path.join(base, "data"))
         with ThreadPoolExecutor(workers) as ex:
             res = list(ex.map(lambda ic: run_config(base, paths, ic[0], ic[1], optset), enumerate(cfgs)))
@@ -155,6 +155,8 @@ def pipeline_matrix(ctx, data_seed, optset, cfgs, n_chroms=3, workers=6, label="
         for cfg, (rc, files, log, _) in zip(cfgs[1:], res[1:]):
             axes = cfg_axes(cfgs[0], cfg)
             inp = {"data_seed": data_seed, "n_chroms": n_chroms, "optset": optset, "ref": cfgs[0], "cfg": cfg}
+            if chrom_names:
+                inp["chrom_names"] = list(chrom_names)
             if rc != ref_rc:
                 ctx.fail("exit_status_differs:" + "+".join(axes), inp, "rc %s vs %s: %s" % (ref_rc, rc, log[-600:]))
                 continue
@@ -946,6 +948,13 @@ def oracle(ctx, disagreements, broken):
         runs += pipeline_matrix(ctx, data_seed, o, cfgs, n_chroms=ctx.rng.choice([3, 3, 4] if quick else [3, 4, 5, 6]))
         if len(ctx.failures) > 10:
             break
+    # contigs with EQUAL natural sort keys (chr1, Chr1, chr01, chr001; hypothesis audit G8: outside `distinct` of
+    # merge_order_of_perm): the merged order among them is the submission order, the outputs must still be the same
+    cfgs = make_configs(ctx.rng, ctx.tier, searching)
+    if quick:
+        cfgs = [cfgs[0]] + [c for c in cfgs[1:] if c["threads"] > 1][:3]
+    runs += pipeline_matrix(ctx, ctx.rng.randint(0, 10 ** 9), "grouped", cfgs, chrom_names=c06data.EQUAL_KEY_CHROMS,
+                            label="equal_natural_keys")
     ctx.extra["oracle_pipeline_runs"] = runs
 
 
@@ -966,7 +975,7 @@ def replay(ctx, failure):
     import random
     base = tempfile.mkdtemp(prefix="isoverif_c06r_")
     try:
-        ds = c06data.build(random.Random(inp["data_seed"]), n_chroms=inp.get("n_chroms", 3))
+        ds = c06data.build(random.Random(inp["data_seed"]), n_chroms=inp.get("n_chroms", 3), chrom_names=inp.get("chrom_names"))
         paths = ds.write(os.path.join(base, "data"))
         a = run_config(base, paths, 0, inp["ref"], inp["optset"])
         b = run_config(base, paths, 1, inp["cfg"], inp["optset"])
